@@ -42,6 +42,7 @@ class ListV(namedtuple("ListV", "items loop tail")):
     def seq(self):
         return self.items + tuple(v for _, v in self.tail)
 CompList = namedtuple("CompList", "elems src")
+Splice = namedtuple("Splice", "of")  # inside a ListV: the elements of another collection, spliced in by extend()
 DictV = namedtuple("DictV", "items")
 SerData = namedtuple("SerData", "of")
 SerFlags = namedtuple("SerFlags", "of")
@@ -291,12 +292,17 @@ class FragDomain(Domain):
                 lst = args[0]
                 if isinstance(lst, ListOf):
                     lst = lst.of
+                if isinstance(lst, TupleV):
+                    lst = ListV(lst.items)
                 if isinstance(lst, ListV):
                     if not lst.loop:
                         out = Const(b"")
                         for i, it in enumerate(lst.seq):
                             if i:
                                 out = cat(out, sep)
+                            if isinstance(it, Splice):
+                                # the elements of another collection spliced in by extend(): one or more, same separator
+                                it = B((("rep", it.of.elems, sep),)) if isinstance(it.of, CompList) else B((("taint", it.of),))
                             out = cat(out, it)
                         return ok(out if isinstance(out, B) else B(to_frags(out)))
                     return ok(B((("rep", frozenset(list(lst.loop) + list(lst.seq)), sep),)))
@@ -305,6 +311,20 @@ class FragDomain(Domain):
                 return ok(B((("taint", lst),)))
             if a == "items":
                 return ok(ItemsOf(o))
+            if a == "extend" and isinstance(node.func.value, ast.Name) and args:
+                nm = node.func.value.id
+                cur = state.get(nm, TOP)
+                other = args[0].of if isinstance(args[0], ListOf) else args[0]
+                site = (node.lineno, node.col_offset)
+                if isinstance(cur, ListV) and not cur.loop and not any(s_ == site for s_, _ in cur.tail):
+                    if isinstance(other, (ListV, TupleV)) and not getattr(other, "loop", None):
+                        items = other.seq if isinstance(other, ListV) else other.items
+                        return [("ok", NONE, state.set(nm, ListV(cur.items, cur.loop, cur.tail + tuple((site, x) for x in items))))]
+                    if isinstance(other, CompList) and _hashable(other):
+                        return [("ok", NONE, state.set(nm, ListV(cur.items, cur.loop, cur.tail + ((site, Splice(other)),))))]
+                if isinstance(cur, ListV):
+                    return [("ok", NONE, state.set(nm, TOP))]
+                return ok(NONE)
             if a == "append" and isinstance(node.func.value, ast.Name):
                 nm = node.func.value.id
                 cur = state.get(nm, TOP)
@@ -325,6 +345,14 @@ class FragDomain(Domain):
             return [("ok", NONE, state.set("sent", 1))]
         if name == "self._connect":
             return [("ok", NONE, state.set("sent", 1))]
+        if isinstance(node.func, ast.Name) and self.fn is not None and node.func.id in self.fn.module.functions:
+            # a module-level helper that builds part of a command (e.g. the `[ noreply]\r\n` tail): interpreted in line
+            from . import exchange
+
+            if node.func.id not in exchange.recv_reaching_functions(self.prog)[1] and node.func.id not in ("check_key_helper", "normalize_server_spec"):
+                res = self.inline(node, self.fn.module.functions[node.func.id], args, kwargs, state)
+                if res is not None:
+                    return [r for r in res if r[0] == "ok"]
         if name.startswith("self.") and name.count(".") == 1:
             m = self.prog.cls("Client").methods.get(name[5:])
             if m is not None and name[5:].startswith("_") and name[5:] not in ("_connect", "_check_integer", "_check_cas", "_raise_errors", "_extract_value"):
